@@ -1,6 +1,7 @@
 package main
 
 import (
+	"fmt"
 	"github.com/vedadiyan/genql"
 	"github.com/vedadiyan/sqlparser/v2"
 )
@@ -9,4 +10,25 @@ import (
 // texts with the same rendering have the same AST shape and literals.
 func canonicalSQL(st genql.Statement) string {
 	return sqlparser.String(st)
+}
+
+// joinTypePredicates parses `SELECT * FROM a x <spelling> b y ON x.i = y.i` and reports what the parser's JoinType
+// predicates answer for it — the four questions the engine asks (the model's `JoinType` structure)
+func joinTypePredicates(spelling string) (map[string]any, error) {
+	st, err := genql.Parse("SELECT * FROM a x " + spelling + " b y ON x.i = y.i")
+	if err != nil {
+		return nil, err
+	}
+	var found *sqlparser.JoinTableExpr
+	_ = sqlparser.Walk(func(node sqlparser.SQLNode) (bool, error) {
+		if j, ok := node.(*sqlparser.JoinTableExpr); ok && found == nil {
+			found = j
+		}
+		return true, nil
+	}, st)
+	if found == nil {
+		return nil, fmt.Errorf("no join in the parsed statement")
+	}
+	jt := found.Join
+	return map[string]any{"inner": jt.IsInner(), "left": jt.IsLeftJoin(), "straight": jt.IsStraightJoin(), "parallel": jt.IsParallel()}, nil
 }
